@@ -4,8 +4,8 @@ from common import *
 import decl, gen, pktcases, pktprops
 
 PID = 'C13'
-TARGETS = ['Properties/C13.vo', 'Model/Heap.vo', 'Proofs/HeapAdequacy.vo', 'Bridge/RefBridge.vo', 'Bridge/InitBridge.vo', 'Bridge/DataBridge.vo', 'Bridge/PlumbingBridge.vo']
-KERNELS = ['G8_data', 'G15_init', 'G15b_init_structural', 'G16_ref', 'G16b_optional', 'G16c_prototype', 'G17_builder']
+TARGETS = ['Properties/C13.vo', 'Model/Heap.vo', 'Proofs/HeapAdequacy.vo', 'Bridge/RefBridge.vo', 'Bridge/InitBridge.vo', 'Bridge/DataBridge.vo', 'Bridge/PlumbingBridge.vo', 'Bridge/MiscPacketBridge.vo']
+KERNELS = ['G8_data', 'G15_init', 'G15b_init_structural', 'G16_ref', 'G16b_optional', 'G16c_prototype', 'G17_builder', 'G20b_packet_misc']
 PROP_FILE = 'Properties/C13.v'
 ASSUMPTIONS = ["partial: values of the model have no identity, so aliasing of mutable sub-objects and real thread interleavings (bytecode-level, "
                "under the GIL) are not exhibited by the model; they are checked on the implementation only (identity graph, write monitor, threads)"]
